@@ -28,8 +28,7 @@ HEADER = ("From TT Require Import Model.Doc Gen.StyleTables Model.Isd Model.SigT
 VCFG = [(lp, ta, ci) for lp in (False, True) for ta in (False, True) for ci in (False, True)]
 CONFIG_NAMES = ["srt text_formatting=True", "srt text_formatting=False"] + \
                [f"vtt line_position={a} text_align={b} cue_id={c}" for a, b, c in VCFG]
-TRIGGERS = ["ruby", "nested-div", "tags-only", "collapsed", "unbounded", "arrow", "blank-line", "line-range", "snapshot-error",
-            "srt-markup", "reset-style", "align-lost"]
+TRIGGERS = ["collapsed", "arrow", "blank-line", "snapshot-error", "srt-markup", "reset-style", "align-lost"]
 NTRIG = len(TRIGGERS)
 
 
@@ -120,8 +119,9 @@ class CueGen:
     div/p each, nested divs, ruby, both white-space modes, markup-significant text, sub-millisecond and unbounded intervals, the
     style properties the writers read (on every level), region geometry for line positions, animation, display."""
     def __init__(self, rng, styled=0.08, markup=0.25, ruby_p=0.08, style_density=0.02, anim_density=0.006, display_p=0.03,
-                 region_ref_p=0.45, timing_p=0.15, subms_p=0.04, nested_p=0.25):
+                 region_ref_p=0.45, timing_p=0.15, subms_p=0.04, nested_p=0.25, end_p=1.0, focus=None):
         self.rng = rng; self.sd = style_density; self.ad = anim_density; self.dp = display_p
+        self.end_p = end_p; self.focus = focus
         self.ruby_p = ruby_p; self.rrp = region_ref_p; self.tp = timing_p; self.n = 0
         self.styled = styled; self.markup = markup; self.subms_p = subms_p; self.in_ruby = 0; self.ruby_quiet = True; self.nested_p = nested_p
         import ttconv.style_properties as s
@@ -153,6 +153,13 @@ class CueGen:
             if rng.random() < 0.5: e.set_style(SP.Origin, rvalue(rng, SP.Origin))
             if rng.random() < 0.5: e.set_style(SP.Extent, rvalue(rng, SP.Extent))
             if rng.random() < 0.2: e.set_style(SP.Position, rvalue(rng, SP.Position))
+            if self.focus == "edge":          # a region that reaches beyond the root container: the line percentage must stay in 0..100
+                U = s.LengthType.Units
+                y = rng.choice([F(90), F(95), F(100), F(-5), F(0), F(120)]); h = rng.choice([F(20), F(30), F(10), F(200)])
+                e.set_style(SP.Origin, s.CoordinateType(x=s.LengthType(F(10), U.pct), y=s.LengthType(y, U.pct)))
+                e.set_style(SP.Extent, s.ExtentType(height=s.LengthType(h, U.pct), width=s.LengthType(F(80), U.pct)))
+                if e.has_style(SP.Position): e.set_style(SP.Position, None)
+                e.set_style(SP.DisplayAlign, rng.choice(list(s.DisplayAlignType)))
             return
         if isinstance(e, m.Br): return
         scale = 3.0 if isinstance(e, m.Span) else 1.0
@@ -172,7 +179,7 @@ class CueGen:
         rng = self.rng
         if self.in_ruby and self.ruby_quiet: return
         if rng.random() < self.tp: e.set_begin(rtime(rng, 3))
-        if rng.random() < self.tp:
+        if rng.random() < self.tp * self.end_p:
             if rng.random() < self.subms_p:      # an interval shorter than a millisecond
                 e.set_end((e.get_begin() or F(0)) + F(1, rng.choice([1500, 3000, 7000, 2001])))
             else:
@@ -211,7 +218,7 @@ class CueGen:
     def wrap(self, cls, prefix):
         import ttconv.model as m
         e = cls(self.d); self.common(e, prefix)
-        for _ in range(self.rng.randint(0, 2)): e.push_child(self.span(2, allow_nested=False))
+        for _ in range(self.rng.randint(0, 2)): e.push_child(self.span(1 if self.focus == "ruby" else 2, allow_nested=self.focus == "ruby"))
         if self.ruby_quiet:        # an annotation emptied by white-space handling makes snapshot generation raise (C01 finding)
             sp = m.Span(self.d); sp.set_id(self.uid("s")); self.n += 1; sp.push_child(m.Text(self.d, "R%d" % self.n)); e.push_child(sp)
         return e
@@ -220,7 +227,7 @@ class CueGen:
         import ttconv.model as m
         self.in_ruby += 1
         try:
-            rng = self.rng; self.ruby_quiet = rng.random() < 0.85
+            rng = self.rng; self.ruby_quiet = rng.random() < (0.97 if self.focus == "ruby" else 0.85)
             e = m.Ruby(self.d); self.common(e, "ruby")
             pat = rng.randrange(4)
             if pat == 0: cs = [self.wrap(m.Rb, "rb"), self.wrap(m.Rt, "rt")]
@@ -240,9 +247,30 @@ class CueGen:
         finally:
             self.in_ruby -= 1
 
+    def blank_styled_p(self):
+        """a paragraph that shows nothing but carries tags: styled spans holding only br / white space"""
+        import ttconv.model as m, ttconv.style_properties as s
+        SP = s.StyleProperties
+        rng = self.rng; e = m.P(self.d); e.set_id(self.uid("p")); self.timing(e); self.region(e, "p")
+        for _ in range(rng.randint(1, 2)):
+            sp = m.Span(self.d); sp.set_id(self.uid("s"))
+            k = rng.randrange(5)
+            if k == 0: sp.set_style(SP.Color, rng.choice(_colors()[:3]))
+            elif k == 1: sp.set_style(SP.FontWeight, s.FontWeightType.bold)
+            elif k == 2: sp.set_style(SP.FontStyle, s.FontStyleType.italic)
+            elif k == 3: sp.set_style(SP.TextDecoration, s.TextDecorationType(underline=True))
+            else: sp.set_style(SP.BackgroundColor, rng.choice(_colors()[:3]))
+            for _ in range(rng.randint(1, 2)):
+                if rng.random() < 0.6: b = m.Br(self.d); b.set_id(self.uid("br")); sp.push_child(b)
+                else: sp.push_child(m.Text(self.d, rng.choice([" ", "  ", "\t", "\u00a0"])))
+            e.push_child(sp)
+        return e
+
     def p(self):
         import ttconv.model as m
-        rng = self.rng; e = m.P(self.d); self.common(e, "p")
+        rng = self.rng
+        if self.focus == "tagsonly" and rng.random() < 0.4: return self.blank_styled_p()
+        e = m.P(self.d); self.common(e, "p")
         for _ in range(rng.randint(1, 3)):
             k = rng.random()
             if k < self.ruby_p: e.push_child(self.ruby())
@@ -253,6 +281,12 @@ class CueGen:
     def div(self, depth):
         import ttconv.model as m
         rng = self.rng; e = m.Div(self.d); self.common(e, "d")
+        if self.focus == "nested":          # body/div/div[/div]/p: few paragraphs, each below a nested division
+            inner = m.Div(self.d); self.common(inner, "d"); e.push_child(inner)
+            if depth == 0 and rng.random() < 0.4:
+                inner2 = m.Div(self.d); self.common(inner2, "d"); inner.push_child(inner2); inner = inner2
+            for _ in range(rng.choice([1, 1, 1, 2])): inner.push_child(self.p())
+            return e
         for _ in range(rng.randint(0, 3)):
             if depth < 2 and rng.random() < self.nested_p: e.push_child(self.div(depth + 1))
             else: e.push_child(self.p())
@@ -281,7 +315,13 @@ class CueGen:
             d.put_region(r); self.regs.append(r)
         if rng.random() < 0.03: return d
         b = m.Body(d); self.common(b, "b")
-        for _ in range(rng.randint(1, 3)): b.push_child(self.div(0))
+        ndiv = rng.randint(1, 3)
+        if self.focus == "nested": ndiv = rng.choice([1, 1, 2])
+        if self.focus == "unbounded":       # every region shows text in the final, unbounded interval: one division per region, no end
+            for r in self.regs:
+                dv = self.div(0); dv.set_region(r); dv.set_end(None); b.push_child(dv)
+            b.set_end(None)
+        for _ in range(ndiv): b.push_child(self.div(0))
         d.set_body(b)
         return d
 
@@ -311,16 +351,59 @@ def make_doc(seed, prop):
     return d
 
 
+FOCI = ["nested", "ruby", "unbounded", "tagsonly", "edge"]
+
+
+def doc_focus(seed):
+    """every fifth document or so exercises one of the repaired paths on purpose (the others reach them by chance)"""
+    r = random.Random(seed ^ 0x5EED).random()
+    return FOCI[int(r * 25)] if r < 0.2 else None
+
+
 def make_doc0(seed, prop):
     rng = random.Random(seed)
     prof = rng.randrange(4)
+    focus = doc_focus(seed)
+    kw = dict(focus=focus)
+    if focus == "nested": kw.update(nested_p=0.0, display_p=0.0, timing_p=0.08)
+    if focus == "ruby": kw.update(ruby_p=0.45)
+    if focus == "unbounded": kw.update(end_p=0.0, display_p=0.0, timing_p=0.25, region_ref_p=0.1)
     if prop == "C07":
-        g = CueGen(rng, styled=(0.10, 0.18, 0.25, 0.12)[prof], markup=(0.45, 0.3, 0.5, 0.6)[prof], ruby_p=0.03,
-                   style_density=(0.0, 0.02, 0.04, 0.0)[prof], subms_p=0.03, nested_p=0.1, timing_p=0.12, anim_density=0.004)
+        a = dict(styled=(0.10, 0.18, 0.25, 0.12)[prof], markup=(0.45, 0.3, 0.5, 0.6)[prof], ruby_p=0.04,
+                 style_density=(0.0, 0.02, 0.04, 0.0)[prof], subms_p=0.03, nested_p=0.1, timing_p=0.12, anim_density=0.004)
     else:
-        g = CueGen(rng, styled=(0.03, 0.06, 0.10, 0.0)[prof], markup=(0.15, 0.25, 0.1, 0.3)[prof], ruby_p=(0.05, 0.02, 0.06, 0.0)[prof],
-                   style_density=(0.0, 0.02, 0.05, 0.0)[prof])
-    return g.doc(nreg=rng.choice([0, 1, 1, 2, 2, 3, 3]))
+        a = dict(styled=(0.03, 0.06, 0.10, 0.0)[prof], markup=(0.15, 0.25, 0.1, 0.3)[prof], ruby_p=(0.05, 0.03, 0.06, 0.0)[prof],
+                 style_density=(0.0, 0.02, 0.05, 0.0)[prof])
+    a.update(kw)
+    g = CueGen(rng, **a)
+    nreg = rng.choice([0, 1, 1, 2, 2, 3, 3])
+    if focus == "unbounded": nreg = rng.choice([2, 2, 3])
+    if focus == "edge": nreg = rng.choice([1, 2, 3])
+    return g.doc(nreg=nreg)
+
+
+def doc_features(d, outs):
+    """what a generated document exercises (for the input distribution in the evidence)"""
+    import ttconv.model as m
+    f = set()
+    def base_text(e):
+        return any(isinstance(x, m.Text) and x.get_text().strip() for x in e.dfs_iterator())
+    body = d.get_body()
+    if body is not None:
+        for e in body.dfs_iterator():
+            if isinstance(e, m.Div) and isinstance(e.parent(), m.Div): f.add("nested div")
+            if isinstance(e, (m.Rb, m.Rbc)) and base_text(e): f.add("ruby base text")
+            if isinstance(e, (m.Rt, m.Rtc)) and base_text(e): f.add("ruby annotation text")
+            if isinstance(e, m.Span) and isinstance(e.parent(), m.Rb) and any(isinstance(c, m.Span) for c in e): f.add("nested span in rb")
+    for i, r in enumerate(outs):
+        if r[0] != "ok": continue
+        if "ruby base text" in f and re.search(r"R\d+", r[1]): f.add("ruby base text in an output")
+        if i >= 2 and VCFG[i - 2][0]:
+            cues = re.findall(_VTT_TS + r" --> " + _VTT_TS + r"[^\n]*\n", r[1])
+            t = [(_ms(c[0:4]), _ms(c[4:8])) for c in cues]
+            if len(t) >= 2 and t[-1] == t[-2] and t[-1][1] - t[-1][0] == 10000: f.add("several cues in the unbounded last interval")
+            if re.search(r"line:(0|100)%", r[1]): f.add("line at a bound (0% / 100%)")
+    return sorted(f)
 
 
 # ------------------------------------------------------------------------------------------------ the implementation
@@ -435,7 +518,7 @@ def work(args):
             "; ".join(f"(mkVttConfig {C.boolean(a)} {C.boolean(b)} {C.boolean(c)}, {o})" for (a, b, c), o in zip(VCFG, ol[2:])) + "].\n"
             f"Definition c{k} : list (list (Z * Z * text)) := [{'; '.join(pl)}].")
     nreg = len(list(d.iter_regions()))
-    return k, defs, outs, [p is not None for p in parsed], nreg
+    return k, defs, outs, [p is not None for p in parsed], (nreg, doc_features(d, outs), doc_focus(seed))
 
 
 def slots_for(prop, k, fresh=False):
@@ -459,13 +542,10 @@ def load_proposed(run):
 
 
 # which trigger explains which S failure, and the finding it belongs to
-C06_EXPLAIN = [("ruby", "writers-skip-ruby"), ("nested-div", "vtt-nested-div-lost"), ("tags-only", "tags-only-cue"),
-               ("collapsed", "no-cues-when-writer-raises"), ("unbounded", "no-cues-when-writer-raises"),
-               ("arrow", "payload-not-recoverable"), ("blank-line", "payload-not-recoverable")]
-C07_WF_EXPLAIN = [("collapsed", "collapsed-interval-valueerror"), ("unbounded", "unbounded-interval-several-cues-valueerror"),
-                  ("arrow", "arrow-in-payload"), ("blank-line", "blank-looking-line-in-payload"), ("line-range", "line-percentage-out-of-range")]
-# C07 runs are not judged where C06's text-loss findings fire (the characters themselves are missing) or the file does not parse
-C07_RUNS_SKIP = ["nested-div", "tags-only", "collapsed", "unbounded", "arrow", "blank-line", "line-range"]
+C06_EXPLAIN = [("collapsed", "no-cues-when-writer-raises"), ("arrow", "payload-not-recoverable"), ("blank-line", "payload-not-recoverable")]
+C07_WF_EXPLAIN = [("collapsed", "collapsed-interval-valueerror"), ("arrow", "arrow-in-payload"), ("blank-line", "blank-looking-line-in-payload")]
+# C07 runs and cue settings are not judged where there is no file or the file does not parse
+C07_RUNS_SKIP = ["collapsed", "arrow", "blank-line"]
 
 
 def check(prop, targets, extra_rule):
@@ -502,6 +582,17 @@ def check(prop, targets, extra_rule):
     files = isdcore.write_shards(f"Cases_{prop}_", HEADER, blocks, max_bytes=150_000)
     run.log(f"{len(files)} case files written ({sum(os.path.getsize(p) for p, _ in files) // 1000} kB)")
     bad, broken = isdcore.eval_shards(files, timeout=2400)
+    if broken:
+        # a case file that did not evaluate (coqc killed: out of memory on a loaded machine, time-out) is evaluated once more, alone;
+        # only what fails twice is reported
+        again = [f for f in files if f[0] in {b[0] for b in broken}]
+        run.log(f"{len(broken)} case files did not evaluate; evaluating them again one at a time")
+        broken = []
+        for f in again:
+            bad2, broken2 = isdcore.eval_shards([f], timeout=2400)
+            broken += broken2
+            for slot, rows in bad2.items(): bad.setdefault(slot, []).extend(rows)
+        run.cov["case_files_evaluated_twice"] = len(again)
     C.clean_cases(f"Cases_{prop}_")
 
     nslots = len(slots_for(prop, 0)[0])
@@ -530,13 +621,13 @@ def check(prop, targets, extra_rule):
             else:
                 stats["raised"][str(r[1])] = stats["raised"].get(str(r[1]), 0) + 1
 
-    known_hits, unexplained, excluded = {}, [], {"snapshot-error": 0, "srt-markup": 0, "c06-text-loss": 0}
+    known_hits, unexplained, excluded = {}, [], {"snapshot-error": 0, "srt-markup": 0, "no-parseable-file": 0}
     def judge(slot, explain, skip=(), offset=0):
         for k0, i0 in bad.get(slot, []):
             case = (k0, i0 + offset)
             f = fired.get(case, set())
             if "snapshot-error" in f: excluded["snapshot-error"] += 1; continue
-            if any(t in f for t in skip): excluded["c06-text-loss"] += 1; continue
+            if any(t in f for t in skip): excluded["no-parseable-file"] += 1; continue
             hit = [fid for t, fid in explain if t in f]
             if hit:
                 for fid in dict.fromkeys(hit): known_hits.setdefault(fid, []).append(case)
@@ -574,19 +665,25 @@ def check(prop, targets, extra_rule):
         run.violation("; ".join(what), dict(kind="broken-tie", theorem_file=f"coq/Properties/{prop}.v", proofs_ok=proofs_ok,
                                             correspondence="Model/CueWriter.v srt_from_model / vtt_from_model vs ttconv.srt.writer / ttconv.vtt.writer from_model",
                                             first=replay(m_bad[0]) if m_bad else None), found_input=False)
-    regs = {}
-    for k, (_, _, nreg) in info.items(): regs[nreg] = regs.get(nreg, 0) + 1
+    regs, feats, foci = {}, {}, {}
+    for k, (_, _, (nreg, fs, fo)) in info.items():
+        regs[nreg] = regs.get(nreg, 0) + 1
+        for x in fs: feats[x] = feats.get(x, 0) + 1
+        foci[str(fo)] = foci.get(str(fo), 0) + 1
     trig_hist = {}
     for s in fired.values():
         for t in s: trig_hist[t] = trig_hist.get(t, 0) + 1
     d0 = make_doc(seedof[0], prop)
     run.cov.update(evaluations=ndocs * 10, distinct_nontrivial=stats["outputs_nonempty"],
                    rule="random well-formed documents (harness/c06.py CueGen: 0-3 regions with geometry, body/div/div/p/"
-                        "span/br/text, ruby, region references, timing incl. sub-millisecond and unbounded intervals, xml:space, the style "
+                        "span/br/text, ruby, region references; one document in five is built around a repaired path: a single paragraph "
+                        "below nested divisions, ruby with styled / nested base spans, every region showing text in the unbounded last "
+                        "interval, paragraphs that hold only tags, regions reaching beyond the root container; timing incl. sub-millisecond and unbounded intervals, xml:space, the style "
                         "properties the writers read on every level, text with & < > --> tags-as-text CR LF NBSP) x SRT text_formatting on/off "
                         "x the 8 WebVTT configurations. " + extra_rule + " distinct_nontrivial = outputs that contain at least one cue.",
                    samples=[dict(document=L.doc_lit(d0)[:1500], outputs=[(r[1][:300] if r[0] == 'ok' else r[2]) for r in info[0][0][:3]])],
-                   documents=ndocs, regions_per_document=regs, outputs=stats, triggers_fired_per_output=trig_hist,
+                   documents=ndocs, regions_per_document=regs, documents_exercising=feats, documents_per_focus=foci, outputs=stats,
+                   triggers_fired_per_output=trig_hist,
                    model_code_mismatches=len(m_bad), near_tie_documents=len(ties), excluded=excluded,
                    documents_with_fresh_colour_objects=sum(1 for k in info if is_fresh(seedof[k], prop)),
                    s_accepted=({"cues (C06)": ndocs * 10 - len(bad.get(1, []))} if prop == "C06" else
@@ -604,7 +701,8 @@ def check(prop, targets, extra_rule):
 
 
 def main():
-    return check("C06", ["Proofs/C06/Text.vo", "Proofs/C06/SpecLink.vo", "Proofs/C06/Shape.vo", "Proofs/C06/Exists.vo", "Proofs/C06/Breaks.vo", "Model/CueCases.vo"],
+    return check("C06", ["Proofs/C06/Text.vo", "Proofs/C06/SpecLink.vo", "Proofs/C06/Shape.vo", "Proofs/C06/Exists.vo", "Proofs/C06/Breaks.vo",
+                         "Proofs/C06/Strip.vo", "Proofs/C06/Content.vo", "Proofs/C06/Fixed.vo", "Proofs/C06/BaseSpec.vo", "Model/CueCases.vo"],
                  "Each output is compared with M as a string; its cues (strict parser here AND Spec/CueSpec.v parser, which must agree) "
                  "are compared with cue_spec evaluated in Coq.")
 
